@@ -614,3 +614,9 @@ for _p in ("C12", "C13"):
 PROPS["C11"]["domains"].append("wait")
 PROPS["C11"]["rule"] += (" wait (CRD ids): after a wait phase that holds a CustomResourceDefinition whose apply or delete was not skipped the RESTMapper is "
                          "reset exactly once (counting ResettableRESTMapper), otherwise never — the freshness the validator's unknown-type check relies on.")
+
+PROPS["C10"]["domains"].append("apisvc")
+PROPS["C10"]["rule"] += (" apisvc: one APIService applied through the real Applier under every dry-run strategy, with / without server-side apply, with / without "
+                         "the first apply request breaking with an HTTP/2 stream error (the error on which ApplyTask retries an APIService with client-side apply), "
+                         "object present or not — 24 cases against a table; the predicate: a dry-run sends no mutating request without the dry-run directive "
+                         "(a client dry-run none at all) and leaves the store unchanged.")
